@@ -174,12 +174,13 @@ func (h *H[T]) C11(rc *runCtx) *Violation {
 	taskOps := make([]int, g)
 	taskTwo := make([]int64, g)
 	taskHanded := make([]int64, g)
+	roots := make([]*simrt.Task, g) // (the library may start tasks of its own)
 	for ti := 0; ti < g; ti++ {
 		ti := ti
 		ts := &taskState{}
 		states[ti] = ts
 		own := append([]signal.PoolAllocator[T]{}, pas...) // the task's own copies of the allocator values (made before the tasks start)
-		sim.Go(spA("caller%d", ti), func(t *simrt.Task) {
+		roots[ti] = sim.Go(spA("caller%d", ti), func(t *simrt.Task) {
 			ops, two, handed := 0, int64(0), int64(0)
 			defer func() { taskOps[ti], taskTwo[ti], taskHanded[ti] = ops, two, handed }()
 			fail := func(v *Violation) {
@@ -426,7 +427,7 @@ func (h *H[T]) C11(rc *runCtx) *Violation {
 		if ts.viol != nil && ts.vstep < firstStep {
 			first, firstStep = ts.viol, ts.vstep
 		}
-		if pv := sim.Tasks()[ti].PanicVal; pv != nil && ts.viol == nil && first == nil {
+		if pv := roots[ti].PanicVal; pv != nil && ts.viol == nil && first == nil {
 			first = violf("task-panic", "task %d panicked outside any recovered operation: %v", ti, pv)
 		}
 	}
